@@ -880,34 +880,28 @@ impl StorageEngine {
                     if len == 0 {
                         Vec::new()
                     } else {
-                        let start_idx = if start < 0 { 
-                            (len as isize + start).max(0) as usize
-                        } else {
-                            start as usize
-                        };
+                        // Redis index normalisation, identical for both directions: ranks are
+                        // counted from the low end for ZRANGE and from the high end for ZREVRANGE
+                        let llen = len as i128;
+                        let mut s = start as i128;
+                        let mut e = stop as i128;
+                        if s < 0 { s += llen; }
+                        if e < 0 { e += llen; }
+                        if s < 0 { s = 0; }
                         
-                        let stop_idx = if stop < 0 {
-                            (len as isize + stop).max(0) as usize
+                        if s > e || s >= llen {
+                            Vec::new()
                         } else {
-                            stop as usize
-                        };
-                        
-                        if reverse {
-                            let real_start = len.saturating_sub(1).saturating_sub(stop_idx.min(len.saturating_sub(1)));
-                            let real_stop = len.saturating_sub(1).saturating_sub(start_idx.min(len.saturating_sub(1)));
+                            if e >= llen { e = llen - 1; }
+                            let (s, e) = (s as usize, e as usize);
                             
-                            let range = skiplist.range_by_rank(real_start, real_stop);
-                            let mut items = range.items;
-                            items.reverse();
-                            items
-                        } else {
-                            if start_idx >= len || start_idx > stop_idx {
-                                Vec::new()
+                            if reverse {
+                                let range = skiplist.range_by_rank(len - 1 - e, len - 1 - s);
+                                let mut items = range.items;
+                                items.reverse();
+                                items
                             } else {
-                                let start_idx = start_idx.min(len - 1);
-                                let stop_idx = stop_idx.min(len - 1);
-                                
-                                let range = skiplist.range_by_rank(start_idx, stop_idx);
+                                let range = skiplist.range_by_rank(s, e);
                                 range.items
                             }
                         }
